@@ -607,7 +607,9 @@ func (lunar *Lunar) GetFestivals() *list.List {
 	if m < 0 {
 		m = -m
 	}
-	if m == 12 && lunar.day >= 29 && lunar.year != lunar.Next(1).GetYear() {
+	// the last day of the lunar year; in the years of the historical month renamings it is not
+	// always in month 12 (year 8 ends with month 11) nor on day 29/30 (236-12 has 28 days)
+	if m >= 11 && lunar.day >= 28 && lunar.year != lunar.Next(1).GetYear() {
 		l.PushBack("除夕")
 	}
 	return l
